@@ -3,6 +3,7 @@ stdin: {"jobs": [...]}.  Run with NUMBA_DISABLE_JIT=1 to record the (start, end,
 binary search (job["trace"] = true).
 
 job kinds
+  (chunks: optional Dask chunk shape, e.g. [1, W] - the raster is handed over Dask-backed)
   bin      {bins: [ints], vals2: [2*value | -99 | -97 | -96], dtype, bins_float, trace}
   binary   {vals: [codes], list: [codes], shape [H, W], dtype, off, unit}
   classes  {func, k, vals: [codes], shape [H, W], dtype, off, unit}
@@ -84,8 +85,20 @@ class MachineryJob(Exception):
     """the job itself is malformed (generator's fault, never a finding)"""
 
 
-def raster(codes, shape, dtype, off, unit, table=None, layout=None):
-    a = lay(array_of([real(c, off, unit, table) for c in codes], shape, dtype), layout)
+def chunked(a, chunks):
+    """Dask-backed copy with the given chunk shape (e.g. [1, W]: one block per row)"""
+    if not chunks:
+        return a
+    import dask.array as da
+    return da.from_array(a, chunks=tuple(chunks))
+
+
+def computed(x):
+    return x.compute(scheduler="synchronous") if hasattr(x, "compute") else x
+
+
+def raster(codes, shape, dtype, off, unit, table=None, layout=None, chunks=None):
+    a = chunked(lay(array_of([real(c, off, unit, table) for c in codes], shape, dtype), layout), chunks)
     H, W = shape
     return xr.DataArray(a, dims=["y", "x"], coords={"y": np.arange(H, 0, -1.0), "x": np.arange(W) * 1.0},
                         attrs={"res": 1})
@@ -165,9 +178,9 @@ def run_bin(j):
     bfloat = j.get("bins_float") or any(x != int(x) for x in rb)
     b = np.asarray(rb, dtype=np.float64 if bfloat else np.int64)
     idx = C._cpu_bin(data, b, np.arange(n))
-    agg = xr.DataArray(data, dims=["y", "x"])
-    recl = C.reclassify(agg, bins=[float(x) for x in rb] if bfloat else [int(x) for x in rb],
-                        new_values=[10 + i for i in range(n)]).data
+    agg = xr.DataArray(chunked(data, j.get("chunks")), dims=["y", "x"])
+    recl = computed(C.reclassify(agg, bins=[float(x) for x in rb] if bfloat else [int(x) for x in rb],
+                                 new_values=[10 + i for i in range(n)]).data)
     idx = np.asarray(idx).reshape(1, -1) if np.asarray(idx).shape == data.shape else np.full((1, len(reals)), -7.0)
     recl = np.asarray(recl).reshape(1, -1) if np.asarray(recl).shape == data.shape else np.full((1, len(reals)), -7.0)
     data = np.ascontiguousarray(data).reshape(1, -1)
@@ -210,10 +223,11 @@ def run_binary(j):
 
 
 def run_classes(j):
-    agg = raster(j["vals"], j["shape"], j["dtype"], j.get("off", 0), j.get("unit", 1), j.get("table"), j.get("layout"))
+    agg = raster(j["vals"], j["shape"], j["dtype"], j.get("off", 0), j.get("unit", 1), j.get("table"), j.get("layout"),
+                 j.get("chunks"))
     f = getattr(C, j["func"])
     out = f(agg, k=j["k"])
-    o = np.asarray(out.data)
+    o = np.asarray(computed(out.data))
     return {"kind": "classes", "func": j["func"], "k": j["k"], "vals": j["vals"],
             "out": [cls(v) for v in o.ravel()] if o.shape == agg.shape else []}
 
